@@ -17,7 +17,7 @@ WHAT = {
     "nonce": "key-exchange nonce (tl.RandomInt128, sent in req_pq / p_q_inner_data / client_DH_inner_data)",
     "new_nonce": "key-exchange new_nonce (tl.RandomInt256, p_q_inner_data)",
     "dh_b": "Diffie-Hellman exponent b (internal/math.MakeGAB)",
-    "srp_a": "SRP ephemeral a (telegram/internal/srp.getInputCheckPassword)",
+    "srp_a": "SRP ephemeral a (telegram/internal/srp.getInputCheckPassword; observed through A = g^a mod p)",
 }
 
 
@@ -35,8 +35,7 @@ def translate(ctx):
 
 def probe(ctx, seeds):
     hb = C.build_harness("root", pkg="./cmd/c19")
-    res = []
-    for sd in seeds:
+    def once(sd):
         rc, out = C.sh([hb, "probe", str(sd)], env=ctx.env(), timeout=600)
         if rc != 0:
             raise C.BuildError("c19 probe failed: " + out[-2000:])
@@ -46,10 +45,17 @@ def probe(ctx, seeds):
             if f[0] == "V" and len(f) == 4:
                 r[f[1]] = {"run1": f[2], "run2": f[3], "reproduced": f[2] == f[3]}
             elif f[0] == "B" and len(f) == 6:
-                r[f[1]] = {"b": f[2], "t0": int(f[3]), "t1": int(f[4]),
+                r[f[1]] = {"b": f[2], "run1": f[2], "t0": int(f[3]), "t1": int(f[4]),
                            "clock_seed": None if f[5] == "-" else int(f[5]), "reproduced": f[5] != "-"}
         if sorted(k for k in r if k != "seed") != sorted(SECRETS):
             raise C.BuildError("c19 probe: unexpected output:\n" + out[-2000:])
+        return r
+    res = []
+    for sd in seeds:
+        r, r2 = once(sd), once(sd)      # two separate processes: a generator with a fixed seed repeats here
+        for n in SECRETS:
+            r[n]["other_process"] = r2[n]["run1"]
+            r[n]["reproduced_across_processes"] = r[n]["run1"] == r2[n]["run1"]
         res.append(r)
     return res
 
@@ -62,6 +68,9 @@ def witness_of(dyn, name):
     """first probe in which the secret was reproduced -> replay fields"""
     for r in dyn:
         d = r[name]
+        if not d["reproduced"] and d.get("reproduced_across_processes"):
+            return {"how": "two separate processes (math/rand.Seed(seed) first) return the same value: the generator is deterministic",
+                    "seed": r["seed"], "value_hex": d["run1"], "second_run_hex": d["other_process"]}
         if d["reproduced"]:
             if name == "dh_b":
                 return {"how": "big.Int.Rand(rand.New(rand.NewSource(clock_seed)), 2^2048) equals the exponent MakeGAB returned; "
@@ -97,6 +106,7 @@ def run(ctx):
                 continue
             explained = True
             w = witness_of(dyn, name)
+            bad = sorted(bad, key=len)
             if bad:
                 key = "flow:%s:%s" % (name, leaf_key(bad[0]))
                 text = ("%s depends on a reproducible source: %s  (path of %d nodes; %d offending source nodes in its slice)"
@@ -107,7 +117,8 @@ def run(ctx):
                         % (WHAT[name], s.get("anchors")))
             rep = {"secret": name, "broken_obligation": "theories/Inst/C19i.v: secrets_ok FlowGraph.graph = true",
                    "offending_path_source_to_secret": bad[0] if bad else [],
-                   "all_offending_sources": [p[0] for p in bad],
+                   "offending_sources_nearest_first": [p[0] for p in sorted(bad, key=len)[:12]],
+                   "offending_sources_total": len(bad),
                    "seed_sites_reachable_from_client_construction": fg["seed_sites_from_construction"],
                    "expected": "every source flowing into the secret is crypto/rand",
                    "got": "math/rand / clock / Seed site flows into it" if bad else "no OS source"}
@@ -151,7 +162,7 @@ def run(ctx):
         per_secret.append({"secret": name, "nodes": s["nodes"], "edges": s["edges"], "anchors": s.get("anchors") or [],
                            "source_leaves": {k: v for k, v in src.items()},
                            "path_from_an_OS_source": (s.get("good_paths") or [[]])[0]})
-    evals = len(dyn) * len(SECRETS)
+    evals = 2 * len(dyn) * len(SECRETS)
     distinct = len({(r["seed"], n) for r in dyn for n in SECRETS})
     samples = [{"secret": n, "seed": dyn[0]["seed"],
                 **({"run1": short(dyn[0][n]["run1"]), "run2": short(dyn[0][n]["run2"])} if n != "dh_b" else
@@ -165,14 +176,16 @@ def run(ctx):
          "(crypto/rand = OS, math/rand = PRNG, time.Now & time.Time methods = TIME) and %d leaf contracts "
          "(standard-library functions documented not to write their arguments) in main.go" % fg.get("leaf_contracts", 0),
          "anchors of the four secrets: fields Nonce/NewNonce of the client-built structs of internal/mtproto/objects, exponent "
-         "arguments of big.Int.Exp and result 0 of internal/math.MakeGAB, parameter random of srp.getInputCheckPassword",
-         "not modelled by the translator: references re-loaded from memory and written through elsewhere (L1), writes through "
-         "reflect/unsafe into struct fields (L2), control dependence (L3)"],
+         "arguments of big.Int.Exp and result 0 of internal/math.MakeGAB, field GA (= g^a mod p) of srp.SrpAnswer",
+         "not modelled by the translator: a reference parked in a slice/map element or channel, re-loaded and written through "
+         "elsewhere (L1; globals, struct fields and local cells are covered), writes through reflect/unsafe into struct fields "
+         "(L2), control dependence (L3); the dynamic probe cross-checks the real generators"],
         {"evaluations": evals, "distinct_nontrivial": distinct,
          "rule": "static: one flow graph per run = backward slices of the 4 secrets over the SSA of the whole program "
                  "(packages . and ./telegram with all dependencies); Coq decides secrets_ok on it. dynamic: for each seed "
                  "(VERIF_SEED, +7 more in the thorough tier) each of the 4 secrets is generated twice by the real code after "
-                 "math/rand.Seed(seed), for the DH exponent the clock window around MakeGAB is searched for a seed reproducing it; "
+                 "math/rand.Seed(seed), in two separate processes, and for the DH exponent the clock window around MakeGAB is searched "
+                 "for a seed reproducing it; "
                  "a case = (seed, secret), non-trivial = the real generator ran and returned a value",
          "samples": samples,
          "graph": {"nodes": fg["nodes"], "edges": fg["edges"], "expanded_functions": fg["expanded_functions"],
@@ -196,13 +209,14 @@ def replay(ctx, path):
     fg = translate(ctx)
     s = {x["name"]: x for x in fg["secrets"]}[name]
     bad = s.get("bad_paths") or []
+    bad = sorted(bad, key=len)
     static_bad = bool(bad) or not (s.get("sources") or {}).get("KOS")
     dyn = probe(ctx, [int(obj.get("seed", ctx.seed))])
     w = witness_of(dyn, name)
     print("secret=%s static: %s" % (name, ("offending source " + bad[0][0]) if bad else ("no OS source" if static_bad else "only crypto/rand sources")))
     for line in (bad[0] if bad else []):
         print("   ", line)
-    print("secret=%s dynamic: %s" % (name, ("reproduced: " + json.dumps({k: (short(v) if isinstance(v, str) else v) for k, v in w.items()})) if w
+    print("secret=%s dynamic: %s" % (name, ("reproduced: " + json.dumps({k: (short(v) if k.endswith("_hex") else v) for k, v in w.items()})) if w
                                      else "two runs differ / no clock seed reproduces the value"))
     if static_bad or w:
         print("VIOLATION property=C19 replay=%s" % path)
